@@ -10,6 +10,7 @@ import Tetl.Proto
 import Tetl.C12.Model
 import Tetl.C12.Spec
 import Tetl.C12.FModel
+import Tetl.C12.GenDispatch
 namespace Tetl.C12.Driver
 open Tetl Tetl.Proto Tetl.C12
 open Tetl.C14 (ITy)
@@ -89,7 +90,19 @@ def evalInt (op : String) (t1 t2 : ITy) (nd1 nd2 : Int × Int) (b : Int) : Optio
     let k := castCtx d2 d1
     let conv := (p / q).den == 1
     some fun a => (convStr k a, if conv then sI (Spec.floor p q a) else "n/a")
-  | "cast" | "tp_cast" => let k := castCtx d2 d1; one (withCtx k castCore) (Spec.cast p q)
+  | "cast" | "tp_cast" =>
+    let k := castCtx d2 d1
+    -- tie T: the GENERATED cast body for (to_rep, rep, CF) on the same count; a value of the hand model that the generated
+    -- function does not reproduce (or whose generated UB obligation is false) is printed as `<model>!gen=<generated>`
+    let gen : Int → Option String := match k with
+      | .ok kk => if kk.cr == imax then fun a => GenDispatch.cast kk.toRep t1 kk.cf.num kk.cf.den a else fun _ => none
+      | .error _ => fun _ => none
+    some fun a =>
+      let m := withCtx k castCore a
+      let ms := fmtE sI m
+      match m, gen a with
+      | .ok _, some gv => (if gv == ms then ms else s!"{ms}!gen={gv}", sI (Spec.cast p q a))
+      | _, _ => (ms, sI (Spec.cast p q a))
   | "floor" | "tp_floor" => let k := floorCtx d2 d1; one (withCtx k floorCore) (Spec.floor p q)
   | "ceil" | "tp_ceil" => let k := ceilCtx d2 d1; one (withCtx k ceilCore) (Spec.ceil p q)
   | "round" | "tp_round" => let k := roundCtx d2 d1; one (withCtx k roundCore) (Spec.round p q)
